@@ -32,6 +32,12 @@ type DecoratorResolver struct {
 
 func (r *DecoratorResolver) ResolveIdent(file *ast.File, parent ast.Node, parentField string, id *ast.Ident) (string, error) {
 
+	if file == nil {
+		// The decorator has no file when it decorates an isolated node. Without the imports of the
+		// file nothing can be resolved.
+		return "", fmt.Errorf("goast.DecoratorResolver needs the file to resolve %s", id.Name)
+	}
+
 	imports, err := r.imports(file)
 	if err != nil {
 		return "", err
